@@ -31,8 +31,11 @@ def check(ctx):
     ctx.rule('C06.R', 'single-element takes re-check non-emptiness inside the same critical section')
     ctx.rule('C06.X', 'slots are not copyable/movable; slot contents are touched only in private or locked lists')
     ctx.rule('C06.N', 'queue mutexes are not nested; no user code or slot destruction under them')
+    ctx.rule('C06.O', 'per-thread order: enqueue at end, take at begin, put-back at begin; slots handed back FULL, recycled EMPTY')
+    from .c05 import run_slot_rules
     for tu in ctx.tus:
         info = TUInfo(tu)
+        run_slot_rules(ctx, 'C06.O', 'C06.O', tu, only_kinds=('O-', 'P-into', 'P-swap'))
         for q in QUEUES:
             check_queue(ctx, tu, info, q)
         check_slots(ctx, tu)
@@ -40,6 +43,7 @@ def check(ctx):
     ctx.require_min('C06.R', 5)   # processOne, takeEvent, peekEvent, doEnqueue, + heter processOne, doEnqueueItem
     ctx.require_min('C06.X', 4)
     ctx.require_min('C06.N', 10)
+    ctx.require_min('C06.O', 8)
 
 
 def held_mutex_names(si, pos, may=False):
